@@ -361,6 +361,142 @@ def append_empty_chunk(b):
     return [("iff-empty-last", [(n, b"ZZZZ" + bytes(4))]), ("iff-id-only-last", [(n, b"ZZZZ")])]
 
 
+# --------------------------------------------------------------------------
+# chunk surgery: lengths of 0 (and other small values) in length-prefixed structures
+# --------------------------------------------------------------------------
+
+_IDCHARS = set(b"ABCDEFGHIJKLMNOPQRSTUVWXYZ0123456789 ._-")
+
+
+def find_chunks(b, limit=1 << 17):
+    """chunk headers (4 id characters, 32-bit length that fits the file), nested ones included.
+    -> [(offset of the id, 'big'|'little', length)]"""
+    out, n = [], len(b)
+    for off in range(0, min(n, limit) - 8):
+        cid = b[off:off + 4]
+        if not all(c in _IDCHARS for c in cid) or sum(1 for c in cid if 65 <= c <= 90) < 2:
+            continue
+        for en in ("big", "little"):
+            v = int.from_bytes(b[off + 4:off + 8], en)
+            if 0 < v <= n - (off + 8):
+                out.append((off, en, v))
+                break
+    # keep the candidates that take part in a chain: something starts where they end (or they end with the file
+    # or with an enclosing candidate), or something ends where they start
+    starts = {o for o, _, _ in out}
+    ends = {o + 8 + v for o, _, v in out} | {o + 8 + v + (v & 1) for o, _, v in out}
+    body_starts = {o + 8 for o, _, _ in out} | {o + 12 for o, _, _ in out}
+    keep = []
+    for (o, en, v) in out:
+        e = o + 8 + v
+        if (e in starts or e + (v & 1) in starts or e == n or e in ends - {e} and False) or o in ends or o in body_starts:
+            keep.append((o, en, v))
+    return keep
+
+
+def shrink_chunk(b, chunks, k, newlen):
+    """Edits that cut chunk `k` down to `newlen` body bytes: its tail is removed, its length field set, and
+    the length of every detected chunk that encloses it reduced by as much (nested IFF: SAMP > SNAM)."""
+    off, en, v = chunks[k]
+    cut = v - newlen
+    if cut <= 0:
+        return None
+    edits = [(off + 4, newlen.to_bytes(4, en))]
+    for j, (o2, e2, v2) in enumerate(chunks):
+        if j != k and o2 < off and o2 + 8 + v2 >= off + 8 + v and v2 - cut >= 0:
+            edits.append((o2 + 4, (v2 - cut).to_bytes(4, e2)))
+    edits.append((off + 8 + newlen, cut))          # an int = that many bytes removed there (after the overwrites)
+    return edits
+
+
+def zero_length_variants(rng, b, per_file):
+    """-> [(label, edits)]: chunks emptied or cut to small sizes (name_len 0, comment length 0, zero-size sample
+    chunk, a header chunk holding only its fixed part); chunks that are not the last one first."""
+    chunks = find_chunks(b)
+    if not chunks:
+        return []
+    cand = []
+    for k, (off, en, v) in enumerate(chunks):
+        cid = b[off:off + 4].decode("latin-1")
+        if v <= 64:
+            sizes = set(range(v))           # small chunk (header / name / table): every shorter length
+        else:
+            sizes = {0, 1, 2, 4, 8, 12, 14, 16, 20, 32, v - 1, v - 2, v - 4, v // 2}
+        for nl in sorted(x for x in sizes if 0 <= x < v):
+            cand.append((k, nl, "chunk:%s@%d->%d" % (cid.strip() or "?", off, nl), v))
+    rng.shuffle(cand)
+    # every distinct chunk id before a second chunk of the same id; zero lengths first, then small chunks
+    first = {}
+    for k, (off, en, v) in enumerate(chunks):
+        first.setdefault(b[off:off + 4], k)
+    cand.sort(key=lambda c: (0 if first[b[chunks[c[0]][0]:chunks[c[0]][0] + 4]] == c[0] else 1,
+                             0 if c[1] == 0 else 1 if c[3] <= 64 else 2))
+    cand = [c[:3] for c in cand]
+    out = []
+    for k, nl, lab in cand:
+        v = shrink_chunk(b, chunks, k, nl)
+        if v:
+            out.append((lab, v))
+        if len(out) >= per_file:
+            break
+    return out
+
+
+# --------------------------------------------------------------------------
+# container signatures: an independent reading of the documented signatures
+# --------------------------------------------------------------------------
+
+def documented_container(b):
+    """Is `b` a container by the DOCUMENTED signature of a format libxmp unpacks?  Written from the formats'
+    descriptions, not from libxmp: -> name, or None (plain file), or "?" when the answer needs more than a
+    signature (ARC: marker 0x1a + method + name field).  libxmp looks at files of >= 22 bytes only."""
+    if len(b) < 22:
+        return None
+    if b[:4] == b"PK\x03\x04" or b[:8] == b"PK00PK\x03\x04":
+        return "zip"
+    if b[2:5] == b"-lh" and b[6:7] == b"-" and b[20] <= 3:
+        return "lha"
+    if b[:2] == b"\x1f\x8b":
+        return "gzip"
+    if b[:3] == b"BZh":
+        return "bzip2"
+    if b[:6] == b"\xfd7zXZ\x00":
+        return "xz"
+    if b[:2] == b"\x1f\x9d":
+        return "compress"
+    if b[:4] == b"PP20":
+        return "pp"
+    if b[:4] == b"XPKF" and b[8:12] == b"SQSH":
+        return "sqsh"
+    if b[:1] == b"\x1a":
+        return "?"
+    if b[:8] == b"Archive\x00":
+        return "arcfs"
+    if b[:8] == b"ziRCONia":
+        return "mmcmp"
+    if b[:3] == b"LZX":
+        return "lzx"
+    if b[:4] == b"S404":
+        return "s404"
+    if b[:3] in (b"MO3", b"Rar"):
+        return "external"
+    return None
+
+
+def apply_plant(b, ops):
+    """C11's plant syntax (tools/checks/c11.py SIG_PLANTS): `h:<off>.<hex>` bytes at off, `z:<off>.<value>` one byte"""
+    out = bytearray(b)
+    for op in ops.split(";"):
+        if op.startswith("h:"):
+            off, hx = op[2:].split(".")
+            d = bytes.fromhex(hx)
+            out[int(off):int(off) + len(d)] = d
+        elif op.startswith("z:"):
+            off, val = op[2:].split(".")
+            out[int(off)] = int(val)
+    return bytes(out)
+
+
 if __name__ == "__main__":
     for name, b, last in layouts():
         print("%-40s %6d bytes, last: %s" % (name, len(b), last))
